@@ -501,8 +501,13 @@ func cachePathFromURL(root string, u url.URL) (string, error) {
 	cacheFile := filepath.Join(root, repoDir, dir, filename)
 	// validate it is within root
 	cacheFile = filepath.Clean(cacheFile)
+	// The comparison is made component-wise, not on strings ("/cache2" is not within
+	// "/cache"), and the root itself is refused as well: callers derive a directory from
+	// the result with filepath.Dir, which for the root is the root's parent
+	// (https://host/.. would otherwise be cached next to the cache directory).
 	cleanroot := filepath.Clean(root)
-	if !strings.HasPrefix(cacheFile, cleanroot) {
+	rel, err := filepath.Rel(cleanroot, cacheFile)
+	if err != nil || rel == "." || rel == ".." || strings.HasPrefix(rel, ".."+string(filepath.Separator)) {
 		return "", fmt.Errorf("cache file %s is not within root %s", cacheFile, cleanroot)
 	}
 	return cacheFile, nil
